@@ -219,6 +219,18 @@ def _bright_case(case):
             p10 - 5)
         chk("bright_perc offset does not shift the percentiles", p9o,
             p90 - 5)
+        # a background with fractional grey values (an averaged background):
+        # half a grey level more background, half a level less brightness
+        bgf = bg.astype(float) + 0.5
+        a3, s3 = bright_bc.get_bright_bc(msk, img, bgf)
+        chk("bright_bc with a fractional background differs from its "
+            "definition", a3, mean - 0.5)
+        chk("bright_bc SD changes with a fractional background", s3, sd)
+        p1f, p9f = bright_perc.get_bright_perc(msk, img, bgf)
+        chk("bright_perc with a fractional background differs", p1f,
+            p10 - 0.5)
+        chk("bright_perc with a fractional background differs", p9f,
+            p90 - 0.5)
         # per-event containers: lists and stacked arrays, per-event offsets
         for cont in ("list", "array"):
             mm, ii, bb = [msk, msk], [img, img], [bg, bg]
